@@ -177,6 +177,10 @@ struct Kernel {
     /// events that ran while the app was inside poll
     in_poll: bool,
     events_in_poll: u64,
+    /// deadline of the application-level poll in progress (finite timeouts only)
+    poll_deadline: Option<u64>,
+    /// selects entered after that deadline that did not end with EINTR
+    selects_past_deadline: u32,
     steps: u64,
     last_read_fds: Vec<RawFd>,
     tty_fd: RawFd,
@@ -575,6 +579,10 @@ impl rustix::sim::Hooks for HooksImpl {
         let write_fds: Vec<RawFd> = writefds.as_ref().map(|s| FdSetIter::new(s).collect()).unwrap_or_default();
         k.last_read_fds = read_fds.clone();
         k.tick();
+        let past_deadline = k.in_poll && k.poll_deadline.is_some_and(|d| k.now > d);
+        if past_deadline {
+            k.selects_past_deadline += 1;
+        }
         if k.dead {
             return Err(Errno::IO);
         }
@@ -609,6 +617,9 @@ impl rustix::sim::Hooks for HooksImpl {
                 eintr_budget -= 1;
                 k.src.fault("select-eintr");
                 k.src.sig_str("select:eintr");
+                if past_deadline {
+                    k.selects_past_deadline -= 1;
+                }
                 return Err(Errno::INTR);
             }
             if !ready_r.is_empty() || !ready_w.is_empty() {
@@ -841,6 +852,8 @@ fn new_kernel(mut src: Src) -> Kernel {
         typed: Vec::new(),
         in_poll: false,
         events_in_poll: 0,
+        poll_deadline: None,
+        selects_past_deadline: 0,
         steps: 0,
         last_read_fds: Vec::new(),
         tty_fd: -1,
@@ -877,6 +890,8 @@ struct App {
     blocked: bool,
     /// steps counter at the time of the last Wake / Resize event delivery
     last_wake_event_step: u64,
+    /// a poll with a finite timeout kept looping after its deadline and then delivered an event
+    overstay: Option<String>,
     /// counters at the last clean boundary (start of the current epoch)
     epoch: Epoch,
     epochs: u64,
@@ -899,11 +914,21 @@ struct Epoch {
 impl App {
     fn poll(&mut self, timeout: Option<Duration>) -> Polled {
         let k = self.k.clone();
-        k.borrow_mut().in_poll = true;
+        {
+            let mut kk = k.borrow_mut();
+            kk.in_poll = true;
+            kk.poll_deadline = timeout.map(|t| kk.now.saturating_add(t.as_nanos().min(u64::MAX as u128) as u64));
+            kk.selects_past_deadline = 0;
+        }
         self.history.on_flush();
         let term = self.term.as_mut().expect("terminal");
         let res = guarded(|| term.poll(timeout));
-        k.borrow_mut().in_poll = false;
+        let overstayed = {
+            let mut kk = k.borrow_mut();
+            kk.in_poll = false;
+            kk.poll_deadline = None;
+            kk.selects_past_deadline
+        };
         let polled = match res {
             Err(()) => {
                 self.blocked = true;
@@ -939,6 +964,16 @@ impl App {
         let mut kk = k.borrow_mut();
         let now = kk.now;
         kk.src.log(|| format!("t={}us app: poll({:?}) -> {:?}", now / US, timeout, polled));
+        // the loop of a poll with a finite timeout runs at most once more after the deadline; a
+        // poll that keeps going round while it already holds an event starves that event for as
+        // long as whatever keeps it looping (pending output, a slow terminal) lasts
+        if overstayed > 2 && matches!(polled, Polled::Event(Some(_)) | Polled::Quit) && self.overstay.is_none() {
+            kk.src.probe("poll-overstayed");
+            self.overstay = Some(format!(
+                "poll({:?}) entered select {} more times after its deadline had passed (EINTR not counted) before it returned {:?}",
+                timeout, overstayed, polled
+            ));
+        }
         kk.src.sig_str(match &polled {
             Polled::Event(Some(TerminalEvent::Key(_))) => "poll:key",
             Polled::Event(Some(TerminalEvent::Wake)) => "poll:wake",
@@ -1132,6 +1167,7 @@ fn session(ctx: &Ctx, kernel: &K) -> WorldResult {
         failed: false,
         blocked: false,
         last_wake_event_step: 0,
+        overstay: None,
         epoch: Epoch::default(),
         epochs: 0,
         handler_error: false,
@@ -1288,10 +1324,22 @@ fn session(ctx: &Ctx, kernel: &K) -> WorldResult {
             10 => {
                 // another thread wakes the terminal
                 let mut k = kernel.borrow_mut();
-                let n = 1 + k.src.draw(3);
-                for _ in 0..n {
+                if k.src.chance(1, 4) {
+                    // a burst from busy threads: many requests before the terminal looks again
+                    // (sizes around the powers of two a reader's buffer is likely to have)
+                    const BURSTS: [u32; 14] = [5, 15, 16, 17, 31, 32, 33, 48, 64, 100, 255, 256, 1024, 1025];
+                    let n = BURSTS[k.src.draw(BURSTS.len() as u32) as usize];
                     let delay = k.src.draw(3000) as u64 * US;
-                    k.schedule(delay, Ev::Wake);
+                    k.src.fault("wake-burst");
+                    for _ in 0..n {
+                        k.schedule(delay, Ev::Wake);
+                    }
+                } else {
+                    let n = 1 + k.src.draw(3);
+                    for _ in 0..n {
+                        let delay = k.src.draw(3000) as u64 * US;
+                        k.schedule(delay, Ev::Wake);
+                    }
                 }
                 owed_wake = true;
             }
@@ -1485,6 +1533,11 @@ fn session(ctx: &Ctx, kernel: &K) -> WorldResult {
         }
         if boundary_clean {
             k.src.probe("clean-boundary-reached");
+        }
+    }
+    if prop == "C17" {
+        if let Some(msg) = app.overstay.take() {
+            return Err(violation("C17", "C17.unbounded-poll", "event-held-past-deadline", msg));
         }
     }
     if app.blocked && prop == "C17" {
